@@ -37,7 +37,7 @@ MUST_REACH = {
     "hist_never": 200, "hist_header_only": 200, "parsed_canonical_identical": 200, "failed_parse_forwardable": 20,
     "noncanonical_zc_message_equal": 20, "eager_parsed": 100, "mut_truncated": 50, "mut_extended": 20, "mut_flipped": 50,
     "mut_rezero": 20, "templates_covered": 481, "hist_take": 200, "zero_runs_at_chunk_boundary": 20,
-    "datagrams_custom_template": 200, "hist_orphaned": 60,
+    "datagrams_custom_template": 200, "hist_orphaned": 60, "earlier_copies_edited_in_place": 100,
 }
 
 _ser = UDPMessageSerializer()
@@ -185,6 +185,24 @@ def check_datagram(ctx, b: bytes, origin):
     if zc and parts is not None:
         canonical = wire.is_canonical_zerocoding(parts[1])
     ref_msg = None     # eager decode of b, when possible
+    if zlib.crc32(b) % 3 == 0:
+        # somebody else received the same datagram earlier, looked inside and edited what they found in place (their copy, their
+        # business): it must not change what this datagram is for the next one
+        try:
+            from hippolyzer.lib.base.datatypes import TupleCoord
+            other = _eager.deserialize(b)
+            n_edit = 0
+            for blist in other.blocks.values():
+                for blk in blist:
+                    for v in blk.vars.values():
+                        if isinstance(v, TupleCoord):
+                            v.X = (v.X if v.X == v.X else 0.0) + 10.5
+                            n_edit += 1
+            if n_edit:
+                ctx.count("earlier_copies_edited_in_place")
+            del other
+        except Exception:
+            pass
     for hist in HISTORIES:
         if hist == "orphaned" and (zlib.crc32(b) % 8 or origin.get("kind") not in ("generated", "zero-run-at-chunk-boundary")):
             continue        # (needs a garbage collection per case: one generated datagram in eight)
